@@ -107,7 +107,9 @@ def run(ctx):
     dump = os.path.join(ctx.work, "edges.ndjson")
     nh = 3 if quick else 4
     cfg = model_cfg(ctx, nh, 4, 3, [1, 2, 3, 4, 5], "")
-    cfgd = model_cfg(ctx, nh, 4, 3, [1, 2, 3, 4, 5], dump)
+    # behaviours for replay come from the 3-handle graph in both tiers (the single-worker dump of the 4-handle
+    # graph does not finish in an hour); the thorough tier model-checks 4 handles and replays every behaviour
+    cfgd = model_cfg(ctx, 3, 4, 3, [1, 2, 3, 4, 5], dump)
     res, resd = parallel(lambda a: tlc("CodeMem", a[0], workers=a[1], timeout=3000, heap="8g",
                                        coverage=a[2]),
                          [(cfg, 8, quick), (cfgd, 1, False)])
